@@ -22,7 +22,7 @@ func init() {
 	register(&Driver{
 		ID:        "C11",
 		Technique: "exhaustive enumeration of struct shapes: every list of <=3 (thorough <=4) fields over 12 field kinds (+7 look-alike foreign tags for lists of <= 2) x every placement of each field into anonymous untagged by-value embedded structs of depth <=3 (reflect.StructOf), plus hand-written shapes with unexported embedded struct types and non-recursing decoys; one real start per shape; metamorphic oracle against the flat struct, recording tag processor, bit-exact frame condition",
-		Rule:      "field kinds = {wire by type, wire by name, func, value literal, value placeholder, prop, prefix, logger, custom tag with arguments, untagged, unexported+tagged, foreign-tagged}; placements = {top, E1, E1.E2, E1.E2.E3, E4} per field; static shapes = unexported embedded type at depth 1, below an exported embed, above an exported embed; decoys = tagged anonymous struct, anonymous pointer-to-struct, named struct field; non-trivial = at least one field placed inside an embedded struct",
+		Rule:      "field kinds = {wire by type, wire by name, func, value literal, value placeholder, prop, prefix, logger, custom tag with arguments, untagged, unexported+tagged, foreign-tagged}; placements = {top, E1, E1.E2, E1.E2.E3, E4} per field; static shapes = unexported embedded type at depth 1, below an exported embed, above an exported embed; decoys = tagged anonymous struct, anonymous pointer-to-struct, named struct field; non-trivial = at least one field placed inside an embedded struct. Families added in later rounds (look-ups inside Init, retries after an abandoned attempt, user extension points at every Order, several containers, odd names / types / values) are listed per part in this file and described in MANIFEST.json (level_claimed.text) and DESIGN §7",
 		Assumptions: []string{
 			"reflect.StructOf cannot build unexported embedded fields; those shapes are hand-written Go types",
 			"the custom-tag processor's view is compared as a set (scan order follows the embedding)",
